@@ -95,9 +95,10 @@ META.update({
         note="blocks_and_context assumed; apply_deploy_rulebook bounded only",
     ),
     "C10": dict(
-        technique="contract-based deductive verification of apply_acl (strict mode raises iff uncovered: lemma strict_iff_uncovered) relative to the assumed matcher contract; " + _B,
+        technique="contract-based deductive verification of apply_acl (strict mode raises iff uncovered: lemma strict_iff_uncovered) relative to the assumed matcher contract, of match_row_to_acl's exclusivity, and of merge_dicts on trees (merge == union of block paths, by induction); " + _B,
         text="exploration + proved links: apply_acl(fatal_acl=True) raises AclError iff the spec finds an uncovered row at a covered parent (proved, "
-             "relative to the opaque matcher). Generator programs through the real _run_partial_generator/_old_new_per_device, exclusivity and "
+             "relative to the opaque matcher); merge_dicts on config trees is proved equal to its spec and the spec to be the union of the "
+             "block paths of its arguments (nothing lost, nothing else appears). Generator programs through the real _run_partial_generator/_old_new_per_device, exclusivity and "
              "union: bounded layer (random programs <=6 statements, depth<=3). 1 known finding (reverse row of an undeletable rule vanishes).",
         note="match_row_to_acl's exclusivity iff is proved relative to _find_acl_matches / merge_dicts (assumed); TreeGenerator bookkeeping bounded only",
     ),
@@ -121,12 +122,12 @@ META.update({
         note="make_pre proved against its grouping spec; make_patch reduction lemmas not proved",
     ),
     "C17": dict(
-        technique="contract-based deductive verification of implicit.config (AST->VC, nested loops, comprehension; z3+cvc5) + lemmas on the logic functions (an unchanged-only bucket emits nothing); " + _B,
+        technique="contract-based deductive verification of implicit.config, compile_tree and merge_dicts on trees (AST->VC, nested loops, comprehension; z3+cvc5) + lemmas on the logic functions (an unchanged-only bucket emits nothing); " + _B,
         text="exploration + proved links: implicit.config is proved equal to its rule-by-rule spec for every tree and rule set (default row added "
              "iff the rule is not match-only, no line matches and the row is absent; recursion under matching lines), relative to the opaque "
              "regex matcher; unchanged_only_emits_nothing is proved for the common logics. Sub-tree, iff, idempotence and the patch clause "
              "on 18 hardware models: bounded layer. 2 known findings.",
-        note="merge_dicts not under contract; L-C17a-d bounded only",
+        note="merge_dicts on trees proved (union of paths); the composition in gen.py and `iff` / idempotence over it bounded only",
     ),
     "C13": dict(
         technique=_B + "; no deductive obligations (jsonpointer/jsonpatch/fnmatch cannot be brought under contract)",
